@@ -9,6 +9,14 @@ CHECKS = {
    technique="runtime monitoring: independent RTF reader as output oracle + invariant hook on Row._as_rtf over generated documents",
    text="Every generated document accepted at construction is encoded by the real library; the returned string is re-read by an independent RTF reader (structure, lexical validity, per-row cellx/cell agreement) and a hook on Row._as_rtf checks definitions==contents on every call. Held on the executions produced (thousands of distinct specs incl. the full header x strategy x footnote x source product); not a proof.",
    note="trusted: rtfmon/reader.py (self-tested against hand-written RTF, malformed inputs and the repository's 71 RTF fixtures), CPython, the spec generators' reach"),
+ "C02": dict(cat="exploration", ref="5/C02",
+   technique="runtime monitoring: output read back by an independent RTF reader and compared with the input frame; conservation hook on the three paginate() methods",
+   text="For every generated table (all strategies, nrow 1..50, wrapped rows, header/footnote/source variants, single and multi-section) the parsed data rows of all pages, concatenated, must equal the DataFrame's display texts in order; every table row must be classifiable by sentinel; a hook on DefaultPaginationStrategy/PageByStrategy/SublineStrategy.paginate asserts that the page slices partition the frame. Includes a completely enumerated rows x nrow x strategy x header grid.",
+   note="trusted: reader; sentinel tagging of one key column per table; group_by absent (C13)"),
+ "C13": dict(cat="exploration", ref="5/C13",
+   technique="runtime monitoring: parsed group_by cells per page vs an independent suppression rule; exception class observed for non-contiguous keys; exhaustive small key sequences",
+   text="All key sequences over {a,b,null} up to the stated lengths for 1-3 group_by levels are rendered by the real library at several page sizes; the parsed group_by cells must be blank exactly for true repeats not at a page start; non-contiguous keys must raise ValueError and contiguous ones must not. Random longer sequences with int/str keys and page_by/subline_by on other columns widen the reach.",
+   note="trusted: reader; page starts are taken from the parsed output (first data row of each page)"),
  "C19": dict(cat="exploration", ref="5/C19",
    technique="runtime monitoring: exception class observed at the real constructors for generated invalid configurations",
    text="Each validated field of every component class is driven with one invalid value at a random position of a scalar / flat / nested container among valid values (plus the structural cases); the monitor records the exception class raised by the real constructor. Each case has a valid twin that must be accepted, so the generator cannot hide behind its own invalid surroundings.",
